@@ -575,18 +575,20 @@ impl FunctionClauseError {
 
         let module = map
             .get(&OwnedTerm::Atom(Atom::new("module")))
+            .filter(|m| !m.is_nil_atom())
             .and_then(|m| m.atom_name())
             .map(|s| s.strip_prefix("Elixir.").unwrap_or(s).to_string());
 
         let function = map
             .get(&OwnedTerm::Atom(Atom::new("function")))
+            .filter(|f| !f.is_nil_atom())
             .and_then(|f| f.atom_name())
             .map(|s| s.to_string());
 
-        let arity = map
-            .get(&OwnedTerm::Atom(Atom::new("arity")))
-            .and_then(|a| a.as_integer())
-            .map(|a| a as u8);
+        let arity = match map.get(&OwnedTerm::Atom(Atom::new("arity"))) {
+            Some(a) if !a.is_nil_atom() => Some(u8::try_from(a.as_integer()?).ok()?),
+            _ => None,
+        };
 
         let args = map
             .get(&OwnedTerm::Atom(Atom::new("args")))
